@@ -10,7 +10,7 @@ Definition scan_spec (directed : bool) (g : mg) (by_rows : bool) (fixed : nat) (
   : list (nat * nat * nat) :=
   flat_map (fun k =>
     match (if by_rows then get_edge_weight directed g k fixed else get_edge_weight directed g fixed k) with
-    | Some w => [(fixed, k, w)]
+    | Some w => [if by_rows then (k, fixed, w) else (fixed, k, w)]
     | None => []
     end) ks.
 
